@@ -272,7 +272,7 @@ def r3(run):
 
 
 def r4(run):
-    for fn in (C.APPEND, C.INSERT_FRAME):
+    for fn in C.publisher_names(run.facts) + (C.INSERT_FRAME,):
         b = C.body_or_fail(run, fn)
         checks = q.live_calls(b, TOPIC_KEY_FN)
         if not checks:
